@@ -351,9 +351,59 @@ def amounts(thorough):
     return out
 
 
+FLOAT_DAY_AMOUNTS = ({"days": -1.5}, {"days": 0.5}, {"weeks": -0.5}, {"weeks": 1.25, "days": -0.25}, {"months": -1, "days": -0.25},
+                     {"years": 1, "months": 13, "days": 2.5, "hours": -1}, {"weeks": -1.5, "days": 0.25}, {"days": 1.0}, {"days": -2.75, "minutes": 30})
+
+
+def check_float_days(acc, pendulum, z, f, kw):
+    """Fractional (dyadic) days / weeks on receivers whose wall clock IS the elapsed clock (naive, UTC, fixed offsets): years
+    and months are shifted with clamping, then the rest moves the clock by exactly that much."""
+    import datetime as dt_
+    from fractions import Fraction as Fr
+    case = {"kind": "fdays", "z": z, "f": list(f), "kw": kw}
+    tzobj = None if z is None else pendulum.timezone(z)
+    x = pendulum.DateTime(*f, tzinfo=tzobj)
+    neg = {k: -v for k, v in kw.items()}
+
+    def want(sign):
+        y, m, d = calref.add_months(f[0], f[1], f[2], sign * (12 * kw.get("years", 0) + kw.get("months", 0)))
+        if not (1 <= y <= 9999):
+            return None
+        us = sign * (Fr(kw.get("weeks", 0)) * 7 * 86400 + Fr(kw.get("days", 0)) * 86400 + Fr(kw.get("hours", 0)) * 3600
+                     + Fr(kw.get("minutes", 0)) * 60) * 10 ** 6
+        assert us.denominator == 1
+        n = dt_.datetime(y, m, d, *f[3:7]) + dt_.timedelta(microseconds=int(us))
+        return [n.year, n.month, n.day, n.hour, n.minute, n.second, n.microsecond], z
+
+    dur = pendulum.Duration(**kw)
+    for name, sign, fn in (("add", 1, lambda: x.add(**kw)), ("subtract", -1, lambda: x.subtract(**kw)), ("add-negated", -1, lambda: x.add(**neg)),
+                           ("dt+Duration", 1, lambda: x + dur), ("Duration+dt", 1, lambda: dur + x), ("dt-Duration", -1, lambda: x - dur),
+                           ("dt-(-Duration)", 1, lambda: x - (-dur)), ("dt+(-Duration)", -1, lambda: x + (-dur))):
+        exp = want(sign)
+        if exp is None:
+            continue
+        acc.c["evaluations"] += 1
+        acc.c["transitions"] += 1
+        try:
+            r = fn()
+            got = [list(obs.fields(r)), (None if r.tzinfo is None else (r.timezone_name if not isinstance(z, int) else obs.offset_s(r)))]
+        except Exception as e:  # noqa: BLE001
+            got = f"raises {type(e).__name__}"
+        if got != [exp[0], exp[1]]:
+            acc.mismatch(name, "float-days", case, got, [exp[0], exp[1]])
+
+
 def run_shard(shard):
     import pendulum
     acc = core.Acc(ID)
+    if shard.get("kind") == "float-days":
+        for z in (None, "UTC", 19800):
+            for f in ((2021, 6, 15, 10, 0, 0, 0), (2020, 3, 31, 23, 59, 59, 999999), (2024, 2, 29, 0, 0, 0, 1), (2021, 1, 1, 0, 30, 0, 0)):
+                for kw in FLOAT_DAY_AMOUNTS:
+                    acc.c["states"] += 1
+                    check_float_days(acc, pendulum, z, f, kw)
+        acc.sample({"float_day_amounts": list(FLOAT_DAY_AMOUNTS[:3])})
+        return acc.result()
     if shard.get("kind") == "chains":
         from .. import chain
         for sd in shard["seeds"]:
@@ -418,6 +468,9 @@ def replay_case(case, acc):
         from .. import chain
         chain.replay(acc, pendulum, case, {'cal'})
         return
+    if case["kind"] == "fdays":
+        check_float_days(acc, pendulum, case["z"], tuple(case["f"]), case["kw"])
+        return
     if case["kind"] == "dt":
         check_dt(acc, pendulum, case["z"], tuple(case["f"]), case["kw"], durations=True, fold=case.get("fold", 1))
     else:
@@ -435,6 +488,7 @@ def plan(tier, seed):
     from .. import chain
     cs = chain.chain_seeds(seed, 3 if not thorough else 8)
     shards += [{"kind": "chains", "seeds": ch, "depth": 3, "thorough": thorough} for ch in seeds.chunks(cs, 32)]
+    shards.append({"kind": "float-days", "thorough": thorough})
     return [({"ext": 1, "tz": "sys"}, shards)] + ([({"ext": 0, "tz": "pkg"}, shards)] if thorough else [])
 
 
